@@ -7,6 +7,7 @@ CONSTANTS MaxLinks = 2
  Damage = 2
  Clamp = TRUE
  Trim = FALSE
+ SearchFrom = "dataoffset"
 INVARIANT NoLoopBoundHit
 INVARIANT ProbesInsideFile
 INVARIANT TableSane
